@@ -751,7 +751,7 @@ func (b bodyEnc) encodeFor(kind string, m proto.Message) ([]byte, error) {
 		raw, err = altProtoCodec{}.Marshal(m)
 	case b.isJSON():
 		raw, err = protojson.MarshalOptions{UseProtoNames: b.jsonFl&1 != 0, UseEnumNumbers: b.jsonFl&2 != 0, Multiline: b.jsonFl&4 != 0}.Marshal(m)
-	case b.ctype == ctAltJSON:
+	case b.ctype == ctAltJSON || b.ctype == ctAltEarly:
 		raw, err = altJSONCodec{}.Marshal(m)
 	case b.ctype == ctAltProto:
 		raw, err = altProtoCodec{}.Marshal(m)
